@@ -6,7 +6,7 @@ From Coq Require Import List Bool Arith NArith ZArith String.
 From Coq.Strings Require Import Byte.
 From Verif.Base Require Import Bytes Outcome Str.
 From Verif.Model Require Import IE Codec Decode Frame.
-From Verif.Driver Require Import Show.
+From Verif.Driver Require Import Show C15drv.
 Import ListNotations.
 Local Open Scope string_scope.
 
@@ -31,6 +31,20 @@ Fixpoint take_nats (k : nat) (l : list string) : option (list nat * list string)
       end
   end.
 
+Fixpoint take_hex (k : nat) (l : list string) : option (list (list byte) * list string) :=
+  match k with
+  | O => Some ([], l)
+  | S k' =>
+      match l with
+      | x :: r =>
+          match parse_hex x, take_hex k' r with
+          | Some b, Some (bs, r') => Some (b :: bs, r')
+          | _, _ => None
+          end
+      | [] => None
+      end
+  end.
+
 Record c11_case := { k_cuts : list nat; k_msgs : list nat; k_other : list (list byte); k_stream : list byte }.
 
 Definition c11_parse (l : list string) : option c11_case :=
@@ -45,11 +59,18 @@ Definition c11_parse (l : list string) : option c11_case :=
               | None => None
               | Some m' =>
                   match take_nats m' r2 with
-                  | Some (msgs, ["other"; h1; h2; "stream"; h]) =>
-                      match parse_hex h1, parse_hex h2, parse_hex h with
-                      | Some o1, Some o2, Some s =>
-                          Some {| k_cuts := cuts; k_msgs := msgs; k_other := [o1; o2]; k_stream := s |}
-                      | _, _, _ => None
+                  | Some (msgs, "other" :: no :: r3) =>
+                      match parse_nat no with
+                      | None => None
+                      | Some no' =>
+                          match take_hex no' r3 with
+                          | Some (others, ["stream"; h]) =>
+                              match parse_hex h with
+                              | Some s => Some {| k_cuts := cuts; k_msgs := msgs; k_other := others; k_stream := s |}
+                              | None => None
+                              end
+                          | _ => None
+                          end
                       end
                   | _ => None
                   end
@@ -77,21 +98,21 @@ Definition show_msg (m : msg) : string :=
   match m with
   | TemplateMsg h tid _ => "t:" ++ show_N (h_seq h) ++ ":" ++ show_N (h_obs h) ++ ":" ++ show_N tid ++ ":1"
   | DataMsg h tid rs =>
-      (* the delivered Set exposes the template id only through its records *)
+      (* the delivered Set exposes the template id only through its records; the records are
+         rendered in full: a delivered message must keep its content (no aliasing of buffers) *)
       "d:" ++ show_N (h_seq h) ++ ":" ++ show_N (h_obs h) ++ ":" ++
-      show_N (match rs with [] => 0%N | _ => tid end) ++ ":" ++ show_nat (List.length rs)
+      show_N (match rs with [] => 0%N | _ => tid end) ++ ":" ++ show_records rs
   end.
 Definition show_msgs (ms : list msg) : string :=
   "n=" ++ show_nat (List.length ms) ++ String.concat "" (map (fun m => " " ++ show_msg m) ms).
 
-(* a second connection on the same collector: both of its messages must be delivered *)
-Definition other_ok (tm : tmap) (other : list (list byte)) : bool :=
-  let st := fold_left (feed tmap msg c11_decode) other (init tmap msg tm) in
-  Nat.eqb (List.length (r_out _ _ st)) (List.length other) && negb (r_closed _ _ st).
-
+(* deliveries and end state of one connection, then of a second connection on the same
+   collector (fed message by message) which must see exactly the template table left behind *)
+Definition show_conn (ms : list msg) (closed : bool) : string :=
+  show_msgs ms ++ " closed=" ++ show_bool closed.
 Definition show_result (st : rstate tmap msg) (other : list (list byte)) : string :=
-  show_msgs (r_out _ _ st) ++ " closed=" ++ show_bool (r_closed _ _ st) ++
-  " other=" ++ (if other_ok (r_dec _ _ st) other then "ok" else "bad").
+  let st2 := fold_left (feed tmap msg c11_decode) other (init tmap msg (r_dec _ _ st)) in
+  show_conn (r_out _ _ st) (r_closed _ _ st) ++ " other " ++ show_conn (r_out _ _ st2) (r_closed _ _ st2).
 
 (* the reader fed segment by segment, as the bytes arrive *)
 Definition c11_model (c : c11_case) : string :=
@@ -107,14 +128,18 @@ Definition frames_wf (c : c11_case) : bool :=
 
 Definition c11_spec (c : c11_case) : string :=
   let '(tm, ms, _, closed) := deliver tmap msg c11_decode [] (split_lens (k_msgs c) (k_stream c)) in
-  show_msgs ms ++ " closed=" ++ show_bool closed ++
-  " other=" ++ (if other_ok tm (k_other c) then "ok" else "bad").
+  let '(_, ms2, _, closed2) := deliver tmap msg c11_decode tm (k_other c) in
+  show_conn ms closed ++ " other " ++ show_conn ms2 closed2.
+
+(* the second connection's messages are sent whole and are well framed *)
+Definition other_wf (c : c11_case) : bool :=
+  forallb (fun f => match frame_len f with Some n => Nat.eqb n (List.length f) | None => false end) (k_other c).
 
 Definition C11_holds_on (c : c11_case) (obs : string) : bool :=
-  if frames_wf c then String.eqb obs (c11_spec c) else true.
+  if frames_wf c && other_wf c then String.eqb obs (c11_spec c) else true.
 
 Definition c11_run (case obs : list string) : string :=
   match c11_parse case with
-  | Some c => c11_model c ++ " | " ++ show_bool (C11_holds_on c (unwords obs)) ++ " " ++ show_bool (frames_wf c)
+  | Some c => c11_model c ++ " | " ++ show_bool (C11_holds_on c (unwords obs)) ++ " " ++ show_bool (frames_wf c && other_wf c)
   | None => "PARSE-ERROR"
   end.
